@@ -110,7 +110,28 @@ def run_mc(workdir, cfgs, invariants, properties, max_created, workers=16, timeo
 
 
 def run_trace_validation(workdir, traces, timeout=900, name="b"):
-    """validates a list of trace dicts in one JVM; returns list of verdict dicts"""
+    """validates a list of trace dicts; returns (verdicts, states, wall).  If TLC fails on the batch (an evaluation
+    error of the specification on some logged state), the batch is bisected: the offending trace gets the verdict
+    `unjudged` and every other trace is still judged."""
+    t0 = time.time()
+    try:
+        return _run_trace_validation(workdir, traces, timeout, name)
+    except RuntimeError as e:
+        if len(traces) == 1:
+            t = traces[0]
+            msg = str(e)
+            i = msg.find("Error:")
+            v = {"tid": t["tid"], "n": 0, "outcome": t["outcome"], "fails": [], "wits": [], "taint": [],
+                 "drift": [[0, "tlc-error", [msg[i:i + 400] if i >= 0 else msg[:400]]]], "unjudged": True}
+            return [v], 0, time.time() - t0
+        h = len(traces) // 2
+        a, sa, _ = run_trace_validation(workdir, traces[:h], timeout, name + "a")
+        b, sb, _ = run_trace_validation(workdir, traces[h:], timeout, name + "b")
+        return a + b, sa + sb, time.time() - t0
+
+
+def _run_trace_validation(workdir, traces, timeout=900, name="b"):
+    """one JVM"""
     copy_spec(workdir)
     tf = os.path.join(workdir, name + ".traces.ndjson")
     of = os.path.join(workdir, name + ".out.ndjson")
@@ -130,7 +151,7 @@ def run_trace_validation(workdir, traces, timeout=900, name="b"):
     out = p.stdout + p.stderr
     shutil.rmtree(os.path.join(workdir, "meta_" + name), ignore_errors=True)
     if not os.path.exists(of):
-        raise RuntimeError("trace validation produced no verdicts:\n" + out[-3000:])
+        raise RuntimeError("trace validation produced no verdicts:\n" + (out[out.find("Error:"):][:2500] if "Error:" in out else out[-3000:]))
     verdicts = [json.loads(l) for l in open(of)]
     if len(verdicts) != len(traces):
         raise RuntimeError("verdict count %d != traces %d\n%s" % (len(verdicts), len(traces), out[-2000:]))
